@@ -626,6 +626,61 @@ func (e *env) assoc(in Input, twins bool) ([][]int64, [][]int64, []string) {
 		fail("joins_nested_preload_first", db.Joins("Keeper").Preload("Keeper.Wards").First(&sc, 2).Error)
 		out = append(out, wardIDs(sc.Keeper))
 	}
+	// Delete of an owner with its soft-deletable kids selected: the kids are marked (removed only
+	// under Unscoped), kids that are already marked stay as they are
+	{
+		kidState := func() map[int64]string {
+			st := map[int64]string{}
+			rows, err := db.Raw("SELECT id, owner_id, deleted_at FROM kids ORDER BY id").Rows()
+			if err != nil {
+				fail("kid_state", err)
+				return st
+			}
+			defer rows.Close()
+			for rows.Next() {
+				var id, owner int64
+				var d *string
+				rows.Scan(&id, &owner, &d)
+				ds := "live"
+				if d != nil {
+					ds = "marked"
+					if id > 100 {
+						ds = *d
+					}
+				}
+				st[id] = fmt.Sprintf("%d|%s", owner, ds)
+			}
+			return st
+		}
+		before := kidState()
+		fail("select_delete", db.Select("Kids").Delete(&Owner{ID: 3}).Error)
+		after := kidState()
+		for id, v := range before {
+			nv, ok := after[id]
+			mine := strings.HasPrefix(v, "3|")
+			switch {
+			case !ok:
+				errs = append(errs, fmt.Sprintf("Select(Kids).Delete(owner): kid %d physically removed", id))
+			case mine && id < 100 && nv != "3|marked":
+				errs = append(errs, fmt.Sprintf("Select(Kids).Delete(owner): kid %d is %s", id, nv))
+			case (!mine || id > 100) && nv != v:
+				errs = append(errs, fmt.Sprintf("Select(Kids).Delete(owner): kid %d changed %s -> %s", id, v, nv))
+			}
+		}
+		before = after
+		fail("unscoped_select_delete", db.Unscoped().Select("Kids").Delete(&Owner{ID: 2}).Error)
+		after = kidState()
+		for id, v := range before {
+			nv, ok := after[id]
+			mine := strings.HasPrefix(v, "2|")
+			switch {
+			case mine && ok:
+				errs = append(errs, fmt.Sprintf("Unscoped().Select(Kids).Delete(owner): kid %d still there (%s)", id, nv))
+			case !mine && nv != v:
+				errs = append(errs, fmt.Sprintf("Unscoped().Select(Kids).Delete(owner): kid %d changed %s -> %s", id, v, nv))
+			}
+		}
+	}
 	// association mode WRITES with Association.Unscoped() (no db.Unscoped()): the related rows are
 	// deleted through their soft-delete model, i.e. marked and never removed; rows already marked
 	// (the twins) stay untouched; the association handle still hides marked rows afterwards
